@@ -8,6 +8,7 @@
 \*   KvChange desc, new, r, out     changeKeyvals
 \*   KvMulti  desc, nested, r, args multipleKeyvals into a fresh map
 \*   DistRT   fam, n, inner, text, r, fam2, n2, cats, cats2, probs, probs2
+\*   ParamWrite comma, expect, text, r, r2, back    BppOParametrizableFormat::write, read back by multipleKeyvals
 \* The ghost (name, args) follows the chain Make -> Change -> Change ...;
 \* the model invariant RoundTrip is evaluated on the text the implementation
 \* produced at every step.
@@ -72,7 +73,29 @@ TDistRT ==
   /\ \A i \in 1..Ev.n : Close(Ev.cats2[i], Ev.cats[i]) /\ Close(Ev.probs2[i], Ev.probs[i])
   /\ UNCHANGED vars
 
-TraceNext == TReset \/ TKvMake \/ TKvParse \/ TKvChange \/ TKvMulti \/ TDistRT
+\* BppOParametrizableFormat::write: "name=value,name=value" (a leading comma on request, parameters already
+\* written left out, local aliases as ", alias=name"); the text must denote the expected list: the names
+\* without namespace, in order, each value the same decimal as the parameter's value (k/8, logged as
+\* micro-units), and the option parser must read the same pairs back.
+NG == INSTANCE NumberGrammar
+ArgOK(pair, ex) ==
+  /\ pair[1] = ex[1]
+  /\ IF ex[2] = "num"
+     THEN LET c == NG!FromAscii(pair[2], 46, 101) IN NG!StrictNumber(c) /\ NG!CanonDec(c) = NG!CanonOfMicro(ex[3])
+     ELSE pair[2] = ex[3]
+TParamWrite ==
+  /\ IsEvent("ParamWrite")
+  /\ Ev.r = "ok" /\ Ev.r2 = "ok"
+  /\ LET n    == Len(Ev.expect)
+         body == IF Ev.comma /\ n > 0 THEN (IF Ev.text # <<>> /\ Ev.text[1] = COMMA THEN Tail(Ev.text) ELSE <<EQ>>) ELSE Ev.text
+         A    == ParseArgs(body) IN
+       /\ n = 0 => AllBlank(Ev.text)
+       /\ n > 0 => /\ A.ok /\ Len(A.args) = n /\ \A i \in 1..n : ArgOK(A.args[i], Ev.expect[i])
+                   /\ DistinctKeys(A.args)
+                   /\ SetOf(Ev.back) = SetOf(A.args) /\ Len(Ev.back) = n
+  /\ UNCHANGED vars
+
+TraceNext == TParamWrite \/ TReset \/ TKvMake \/ TKvParse \/ TKvChange \/ TKvMulti \/ TDistRT
 TraceInit == Init /\ l = 1
 TraceSpec == TraceInit /\ [][TraceNext]_<<vars, l>>
 =============================================================================
